@@ -560,6 +560,36 @@ class C03(AstKindProp):
     model_kind = "function"
     scoped_excuses = True
 
+    # statement-level tie (FuncAttr.lean): one typed parameter through emit.function (inline types) and parse.function
+    def corr(self, c, run):
+        res = AstKindProp.corr(self, c, run)
+        from doctrans import emit, parse
+
+        from .common import val_of_json, val_to_json
+
+        for n, p in c["ir"]["params"]:
+            if "typ" not in p or n.endswith("kwargs") or optional_prose(p):
+                continue  # (prose starting with "Optional" re-types the entry: the docstring side's rule, a recorded finding)
+            q = {k: v for k, v in p.items() if k != "default"}
+            if "default" in p:
+                q["default"] = val_of_json(p["default"])
+            try:
+                ir = G.to_py_ir({"doc": "Summary.", "params": [(n, q)], "returns": None})
+                fn = emit.function(ir, function_name="call_peril", function_type="static", inline_types=True, emit_default_doc=False, word_wrap=False)
+                node = ast.parse(ast.unparse(ast.fix_missing_locations(ast.Module(body=[fn], type_ignores=[])))).body[0]
+                back = parse.function(node)["params"][n]
+                impl = {"ok": {"typ": _canon_type(back.get("typ")), "default": canon_val(val_to_json(back["default"])) if "default" in back else None}}
+            except Exception as e:
+                impl = {"raises": exc_kind(e)}
+            res.append(("func_attr", {"op": "func_attr", "param": p}, impl))
+        return res
+
+    def canon_model(self, layer, op, ans):
+        if layer == "func_attr" and "ok" in ans:
+            o = ans["ok"]
+            return {"ok": {"typ": _canon_type(o.get("typ")), "default": canon_val(o.get("default"))}}
+        return AstKindProp.canon_model(self, layer, op, ans)
+
     def explain_kind(self, c):
         ir = c["ir"]
         out = []
